@@ -239,10 +239,10 @@ def stepFloatTable (tbl : List (Nat × FInst F)) (factor : Rat) (typeTag : Strin
       (report (d.flag "reset") op { model := "ok", impl := implS, kind := fkindName inst.st })
   | ["clone", id, nid] => do
     let inst ← get (← id.toNat?)
-    done (put (← nid.toNat?) inst) (report (d.flag "clone") op { model := "ok", impl := implS })
+    done (put (← nid.toNat?) { inst with last := none }) (report (d.flag "clone") op { model := "ok", impl := implS })
   | ["gutsrt", id, nid] => do
     let inst ← get (← id.toNat?)
-    done (put (← nid.toNat?) inst) (report (d.flag "gutsrt") op { model := "ok", impl := implS })
+    done (put (← nid.toNat?) { inst with last := none }) (report (d.flag "gutsrt") op { model := "ok", impl := implS })
   | ["fresh", id, nid] => do
     let inst ← get (← id.toNat?)
     done (put (← nid.toNat?) { st := inst.st.config.init, partner := inst.partner })
@@ -254,10 +254,13 @@ def stepFloatTable (tbl : List (Nat × FInst F)) (factor : Rat) (typeTag : Strin
   | "same" :: a :: b :: name :: _ => do
     let ia ← get (← a.toNat?)
     let ib ← get (← b.toNat?)
-    let ra := frenderOut (← ia.last)
-    let rb := frenderOut (← ib.last)
-    done tbl (report d op { model := s!"{ra} | {rb}", impl := implS, kind := fkindName ia.st,
-                            clauses := [{ name := name, ok := ra == rb, expected := ra }] })
+    match ia.last, ib.last with
+    | some la, some lb =>
+      let ra := frenderOut la
+      let rb := frenderOut lb
+      done tbl (report d op { model := s!"{ra} | {rb}", impl := implS, kind := fkindName ia.st,
+                              clauses := [{ name := name, ok := ra == rb, expected := ra }] })
+    | _, _ => done tbl (report d op { model := implS, impl := implS, kind := fkindName ia.st })
   | _ => none
 
 end generic
